@@ -38,6 +38,14 @@ impl Ty {
             _ => Ty::Unknown,
         }
     }
+    pub fn subst_self(&self, to: &str) -> Ty {
+        match self {
+            Ty::Named(n, a) => Ty::Named(if n == "Self" { to.to_string() } else { n.clone() }, a.iter().map(|x| x.subst_self(to)).collect()),
+            Ty::Tuple(a) => Ty::Tuple(a.iter().map(|x| x.subst_self(to)).collect()),
+            Ty::Slice(e) => Ty::Slice(Box::new(e.subst_self(to))),
+            Ty::Unknown => Ty::Unknown,
+        }
+    }
     pub fn name(&self) -> Option<&str> {
         match self {
             Ty::Named(n, _) => Some(n),
@@ -150,8 +158,22 @@ pub enum Val {
     List(Vec<Val>),
     Rep { coll: String, items: Vec<Val> },
     Opaque { what: String, deps: Vec<Val> },
+    /// struct literal or struct-like enum variant; name = last one or two path segments ("ItemSource::Struct")
+    Struct { name: String, fields: Vec<(String, Val)> },
 }
 impl Val {
+    /// does any node of the value tree satisfy the predicate?
+    pub fn any(&self, f: &dyn Fn(&Val) -> bool) -> bool {
+        if f(self) { return true; }
+        match self {
+            Val::Enum { args, .. } | Val::Tuple(args) | Val::Array(args) | Val::List(args) => args.iter().any(|a| a.any(f)),
+            Val::Rep { items, .. } => items.iter().any(|a| a.any(f)),
+            Val::Opaque { deps, .. } => deps.iter().any(|a| a.any(f)),
+            Val::Struct { fields, .. } => fields.iter().any(|(_, a)| a.any(f)),
+            Val::Tmpl(t) => t.holes.iter().any(|(_, a)| a.any(f)),
+            _ => false,
+        }
+    }
     pub fn some(v: Val) -> Val { Val::Enum { ty: "Option".into(), var: "Some".into(), args: vec![v] } }
     pub fn none() -> Val { Val::Enum { ty: "Option".into(), var: "None".into(), args: vec![] } }
     pub fn ok(v: Val) -> Val { Val::Enum { ty: "Result".into(), var: "Ok".into(), args: vec![v] } }
@@ -182,13 +204,14 @@ impl Val {
             Val::Opaque { what, deps } => {
                 if deps.is_empty() { format!("?{what}") } else { format!("?{what}({})", deps.iter().map(|a| a.short()).collect::<Vec<_>>().join(", ")) }
             }
+            Val::Struct { name, fields } => format!("{name}{{{}}}", fields.iter().map(|(n, v)| format!("{n}:{}", v.short())).collect::<Vec<_>>().join(", ")),
         }
     }
 }
 
 #[derive(Clone, Debug)]
 pub enum Event {
-    Push { place: String, site: String },
+    Push { place: String, site: String, func: String, recv: String },
     Panic { site: String },
     Index { place: String, idx: String, site: String },
     Note(String),
@@ -252,6 +275,8 @@ pub struct Ev<'a> {
     /// functions not inlined: (qual, "atom"|"opaque")
     pub stops: Vec<(String, &'static str)>,
     pub max_depth: usize,
+    /// evaluate the body of this (otherwise summarised) function at call depth 0
+    pub open_at_top: std::cell::RefCell<Option<String>>,
 }
 
 fn then(outs: Outs, mut f: impl FnMut(St, Val) -> Outs) -> Outs {
@@ -271,7 +296,7 @@ fn path_str(p: &syn::Path) -> Vec<String> {
 
 impl<'a> Ev<'a> {
     pub fn new(ix: &'a Index) -> Self {
-        Ev { ix, cur_file: Default::default(), unsupported: Default::default(), push_fns: vec![], stops: vec![], max_depth: 12 }
+        Ev { ix, cur_file: Default::default(), unsupported: Default::default(), push_fns: vec![], stops: vec![], max_depth: 12, open_at_top: Default::default() }
     }
     fn site(&self, sp: proc_macro2::Span) -> String {
         format!("{}:{}", self.cur_file.borrow(), sp.start().line)
@@ -297,10 +322,37 @@ impl<'a> Ev<'a> {
             }
         }
     }
+    /// fork on "path is Var" with mutual exclusivity of the variants of a crate enum
+    pub fn decide_variant(&self, st: St, path: &str, ty: &Ty, var: &str) -> Vec<(St, bool)> {
+        let atom = format!("{path} is {var}");
+        if let Some(en) = ty.name().and_then(|n| self.ix.enums.get(n)) {
+            if en.variants.iter().any(|v| v == var) && !st.cond.contains_key(&atom) {
+                let mut others_false = true;
+                for v in &en.variants {
+                    if v == var { continue; }
+                    match st.cond.get(&format!("{path} is {v}")) {
+                        Some(true) => return vec![(st, false)],
+                        Some(false) => {}
+                        None => others_false = false,
+                    }
+                }
+                if others_false {
+                    let mut s = st;
+                    s.cond.insert(atom, true);
+                    return vec![(s, true)];
+                }
+            }
+        }
+        self.decide(st, &F::A(atom))
+    }
     fn truth(&self, st: St, v: &Val, sp: proc_macro2::Span) -> Vec<(St, bool)> {
         match self.deref(&st, v) {
             Val::Bool(b) => vec![(st, b)],
             Val::Atom(f) => self.decide(st, &f),
+            Val::Opaque { ref what, .. } if what.starts_with("call ") || what.starts_with(".is_") || what.starts_with(".contains") || what.starts_with(".peek") || what.starts_with(".ends_with") || what.starts_with(".starts_with") => {
+                let name: String = self.deref(&st, v).short().chars().take(120).collect();
+                self.decide(st, &F::A(name))
+            }
             other => {
                 self.unsup(&format!("branch on non-boolean {}", other.short()), sp);
                 vec![]
@@ -328,19 +380,26 @@ impl<'a> Ev<'a> {
             self.unsup(&format!("call depth exceeded at {}", f.qual), f.sig.ident.span());
             return vec![];
         }
-        if let Some((_, kind)) = self.stops.iter().find(|(n, _)| n == &f.qual) {
+        let opened = st.depth == 0 && self.open_at_top.borrow().as_deref() == Some(f.qual.as_str());
+        if let Some((_, kind)) = self.stops.iter().find(|(n, _)| n == &f.qual && !opened) {
             let name = format!("{}({})", f.sig.ident, args.iter().map(|a| a.short()).collect::<Vec<_>>().join(","));
             let v = if *kind == "atom" { Val::Atom(F::A(name)) } else if *kind == "ret" {
                 let mut ty = match &f.sig.output { syn::ReturnType::Type(_, t) => Ty::from_syn(t), _ => Ty::Unknown };
-                if ty.name() == Some("Self") { if let Some(t) = &f.self_ty { ty = Ty::Named(t.clone(), vec![]); } }
+                if let Some(t) = &f.self_ty { ty = ty.subst_self(t); }
                 Val::Sym { ty, path: format!("{}#", f.qual) }
-            } else { Val::opaque(name, args) };
+            } else {
+                let mut deps = Vec::new();
+                if let Some(sv) = &self_val { deps.push(self.deref(&st, sv)); }
+                deps.extend(args.iter().map(|a| self.deref(&st, a)));
+                Val::opaque(f.sig.ident.to_string(), deps)
+            };
             return vec![(st, Flow::Val(v))];
         }
         if self.push_fns.iter().any(|n| n == &f.qual) {
             let place = args.first().map(|a| a.short()).unwrap_or_default();
             let site = format!("{}:{}", f.file, f.line);
-            st.events.push(Event::Push { place, site });
+            let recv = self_val.as_ref().map(|v| self.deref(&st, v).short()).unwrap_or_default();
+            st.events.push(Event::Push { place, site, func: f.qual.clone(), recv });
         }
         let saved_env = std::mem::replace(&mut st.env, vec![HashMap::new()]);
         let saved_self = std::mem::replace(&mut st.self_ty, f.self_ty.clone());
@@ -533,6 +592,15 @@ impl<'a> Ev<'a> {
                         .into_iter()
                         .map(|(s, b)| (s, if b == *a { Some(vec![]) } else { None }))
                         .collect(),
+                    (Val::Str(a), Val::Opaque { .. }) | (Val::Str(a), Val::Sym { .. }) => {
+                        let f = F::A(format!("{}=={a:?}", v.short().chars().take(80).collect::<String>()));
+                        // string literals are mutually exclusive
+                        let prefix = format!("{}==", v.short().chars().take(80).collect::<String>());
+                        if st.cond.iter().any(|(k, b)| *b && k.starts_with(&prefix) && *k != format!("{prefix}{a:?}")) {
+                            return vec![(st, None)];
+                        }
+                        self.decide(st, &f).into_iter().map(|(s, b)| (s, if b { Some(vec![]) } else { None })).collect()
+                    }
                     (Val::Int(a), Val::Opaque { what, .. }) => {
                         // symbolic integer: atom "<what>==a"
                         let f = F::A(format!("{what}=={a}"));
@@ -581,36 +649,51 @@ impl<'a> Ev<'a> {
             }
             syn::Pat::Struct(ps) => {
                 let segs = path_str(&ps.path);
-                // struct-like variant: bind named fields as projections
                 let var = segs.last().cloned().unwrap_or_default();
+                let subs: Vec<(String, &syn::Pat)> = ps.fields.iter().map(|fp| (fp.member.to_token_stream().to_string(), &*fp.pat)).collect();
                 match &v {
+                    Val::Struct { name, fields } => {
+                        if name.rsplit("::").next() != Some(var.as_str()) {
+                            return vec![(st, None)];
+                        }
+                        let mut pats = Vec::new();
+                        let mut vals = Vec::new();
+                        for (n, p) in &subs {
+                            pats.push(*p);
+                            vals.push(fields.iter().find(|(fname, _)| fname == n).map(|(_, v)| v.clone()).unwrap_or(Val::opaque(format!("missing-field {n}"), vec![])));
+                        }
+                        self.match_seq(st, pats, vals)
+                    }
                     Val::Sym { ty, path } => {
-                        let atom = F::A(format!("{path} is {var}"));
+                        // is `var` a variant of the symbolic value's enum type?
+                        let en = ty.name().and_then(|n| self.ix.enums.get(n));
+                        let is_variant = match en {
+                            Some(en) => en.variants.iter().any(|x| *x == var),
+                            None => segs.len() >= 2 && !self.ix.structs.contains_key(&var) && ty.name().is_none(),
+                        };
+                        let forks = if is_variant { self.decide_variant(st, path, ty, &var) } else { vec![(st, true)] };
                         let mut r = Vec::new();
-                        for (s, b) in self.decide(st, &atom) {
-                            if b {
-                                let mut binds = Vec::new();
-                                for fp in &ps.fields {
-                                    let name = fp.member.to_token_stream().to_string();
-                                    if let syn::Pat::Ident(pi) = &*fp.pat {
-                                        let mut fty = Ty::Unknown;
-                                        if let Some(en) = ty.name().and_then(|n| self.ix.enums.get(n)) {
-                                            if let Some(vi) = en.variants.iter().position(|x| *x == var) {
-                                                if let Some((_, t)) = en.variant_fields[vi].iter().find(|(n, _)| *n == name) { fty = Ty::from_syn(t); }
-                                            }
-                                        }
-                                        binds.push((pi.ident.to_string(), Val::Sym { ty: fty, path: format!("{path}.{name}") }));
+                        for (s, b) in forks {
+                            if !b { r.push((s, None)); continue; }
+                            let mut pats = Vec::new();
+                            let mut vals = Vec::new();
+                            for (name, p) in &subs {
+                                let mut fty = Ty::Unknown;
+                                if let Some(en) = en {
+                                    if let Some(vi) = en.variants.iter().position(|x| *x == var) {
+                                        if let Some((_, t)) = en.variant_fields[vi].iter().find(|(n, _)| n == name) { fty = Ty::from_syn(t); }
                                     }
-                                }
-                                r.push((s, Some(binds)));
-                            } else {
-                                r.push((s, None));
+                                } else if let Some(t) = self.ix.field_ty(&var, name) { fty = Ty::from_syn(&t); }
+                                let base = if is_variant { format!("{path}.{var}.{name}") } else { format!("{path}.{name}") };
+                                pats.push(*p);
+                                vals.push(Val::Sym { ty: fty, path: base });
                             }
+                            r.extend(self.match_seq(s, pats, vals));
                         }
                         r
                     }
                     _ => {
-                        self.unsup("struct pattern on non-symbolic", p.span());
+                        self.unsup(&format!("struct pattern on {}", v.short()), p.span());
                         vec![]
                     }
                 }
@@ -662,13 +745,23 @@ impl<'a> Ev<'a> {
             }
             Val::Sym { ty, path } => {
                 // symbolic Option / Result / crate enum
-                let (atom, inner): (F, Val) = match (ty.name(), var.as_str()) {
-                    (Some("Option"), "Some") => (F::A(path.clone()), Val::Sym { ty: ty.arg0(), path: format!("{path}.?") }),
-                    (Some("Option"), "None") => (F::Not(Box::new(F::A(path.clone()))), Val::Unit),
-                    _ => (F::A(format!("{path} is {var}")), Val::Sym { ty: Ty::Unknown, path: format!("{path}.{var}") }),
+                let optlike = ty.name() == Some("Option") || (*ty == Ty::Unknown && (var == "Some" || var == "None"));
+                let (atom, inner): (F, Val) = match (optlike, var.as_str()) {
+                    (true, "Some") => (F::A(path.clone()), Val::Sym { ty: ty.arg0(), path: format!("{path}.?") }),
+                    (true, "None") => (F::Not(Box::new(F::A(path.clone()))), Val::Unit),
+                    _ => {
+                        let mut pty = Ty::Unknown;
+                        if let Some(en) = ty.name().and_then(|n| self.ix.enums.get(n)) {
+                            if let Some(vi) = en.variants.iter().position(|x| *x == var) {
+                                if en.variant_fields[vi].len() == 1 { pty = Ty::from_syn(&en.variant_fields[vi][0].1); }
+                            }
+                        }
+                        (F::A(format!("{path} is {var}")), Val::Sym { ty: pty, path: format!("{path}.{var}") })
+                    }
                 };
                 let mut r = Vec::new();
-                for (s, b) in self.decide(st, &atom) {
+                let forks = if optlike { self.decide(st, &atom) } else { self.decide_variant(st, path, ty, &var) };
+                for (s, b) in forks {
                     if b {
                         if sub.len() == 1 {
                             r.extend(self.match_pat(s, sub[0], &inner));
@@ -824,7 +917,7 @@ impl<'a> Ev<'a> {
                         let site = self.site(ix.span());
                         s2.events.push(Event::Index { place: base.short(), idx: idx.short(), site });
                         let r = match (&base, &idx) {
-                            (Val::Array(vs), Val::Int(i)) if (*i as usize) < vs.len() => vs[*i as usize].clone(),
+                            (Val::Array(vs), Val::Int(i)) | (Val::List(vs), Val::Int(i)) if (*i as usize) < vs.len() && !matches!(vs[*i as usize], Val::Rep { .. }) => vs[*i as usize].clone(),
                             (Val::Sym { ty, path }, _) => Val::Sym { ty: ty.arg0(), path: format!("{path}[{}]", idx.short()) },
                             _ => Val::opaque("index", vec![base.clone(), idx]),
                         };
@@ -862,11 +955,40 @@ impl<'a> Ev<'a> {
             MethodCall(m) => self.eval_method(st, m),
             Macro(m) => self.eval_macro(st, &m.mac),
             ForLoop(f) => self.eval_for(st, f),
-            Struct(s) => {
-                // struct literal: evaluate fields, produce opaque struct
-                let args: Vec<&syn::Expr> = s.fields.iter().map(|f| &f.expr).collect();
-                let name = path_str(&s.path).join("::");
-                self.eval_args(st, &args).into_iter().map(|(s2, r)| match r { Ok(vs) => (s2, Flow::Val(Val::opaque(format!("struct {name}"), vs))), Err(f) => (s2, f) }).collect()
+            Struct(sx) => {
+                let args: Vec<&syn::Expr> = sx.fields.iter().map(|f| &f.expr).collect();
+                let names: Vec<String> = sx.fields.iter().map(|f| f.member.to_token_stream().to_string()).collect();
+                let segs = path_str(&sx.path);
+                let n = segs.len();
+                let mut name = segs[n - 1].clone();
+                if n >= 2 {
+                    let mut ty = segs[n - 2].clone();
+                    if ty == "Self" { if let Some(t) = &st.self_ty { ty = t.clone(); } }
+                    if self.ix.enums.contains_key(&ty) { name = format!("{ty}::{}", segs[n - 1]); }
+                } else if name == "Self" {
+                    if let Some(t) = &st.self_ty { name = t.clone(); }
+                }
+                let rest = sx.rest.as_ref().map(|r| (**r).clone());
+                let mut r = Vec::new();
+                for (s2, a) in self.eval_args(st, &args) {
+                    match a {
+                        Err(f) => r.push((s2, f)),
+                        Ok(vs) => {
+                            let mut fields: Vec<(String, Val)> = names.iter().cloned().zip(vs).collect();
+                            if let Some(rest) = &rest {
+                                for (s3, fl) in self.eval_expr(s2, rest) {
+                                    match fl {
+                                        Flow::Val(rv) => { let mut f2 = fields.clone(); f2.push(("..".into(), rv)); r.push((s3, Flow::Val(Val::Struct { name: name.clone(), fields: f2 }))); }
+                                        other => r.push((s3, other)),
+                                    }
+                                }
+                            } else {
+                                r.push((s2, Flow::Val(Val::Struct { name: name.clone(), fields: std::mem::take(&mut fields) })));
+                            }
+                        }
+                    }
+                }
+                r
             }
             Cast(c) => self.eval_expr(st, &c.expr),
             other => {
@@ -886,6 +1008,13 @@ impl<'a> Ev<'a> {
                 let mut r = Vec::new();
                 for (s, b) in self.decide(st, &F::A(path.clone())) {
                     if b { r.push((s, Flow::Val(Val::Sym { ty: ty.arg0(), path: format!("{path}.?") }))); } else { r.push((s, Flow::Ret(Val::none()))); }
+                }
+                r
+            }
+            Val::Sym { ty, path } if ty.name() == Some("Result") => {
+                let mut r = Vec::new();
+                for (s, b) in self.decide(st, &F::A(format!("ok({path})"))) {
+                    if b { r.push((s, Flow::Val(Val::Sym { ty: ty.arg0(), path: format!("{path}.ok") }))); } else { r.push((s, Flow::Ret(Val::err(Val::opaque("err-of", vec![v.clone()]))))); }
                 }
                 r
             }
@@ -958,6 +1087,7 @@ impl<'a> Ev<'a> {
                     if sn == "Flag" && name == "span" {
                         return Val::Sym { ty: Ty::Named("Option".into(), vec![Ty::Named("Span".into(), vec![])]), path };
                     }
+                    if let Some(t) = ext_field_ty(sn, name) { return Val::Sym { ty: t, path: np }; }
                     if let Some(ft) = self.ix.field_ty(sn, name) {
                         let t = Ty::from_syn(&ft);
                         if t.name() == Some("bool") { return Val::Atom(F::A(np)); }
@@ -967,6 +1097,11 @@ impl<'a> Ev<'a> {
                 Val::Sym { ty: Ty::Unknown, path: np }
             }
             Val::Tuple(vs) => name.parse::<usize>().ok().and_then(|i| vs.get(i).cloned()).unwrap_or(Val::opaque("tuple-proj", vec![])),
+            Val::Struct { fields, .. } => {
+                if let Some((_, v)) = fields.iter().find(|(n, _)| n == name) { return v.clone(); }
+                if let Some((_, rest)) = fields.iter().find(|(n, _)| n == "..") { return self.project(st, rest, name); }
+                Val::opaque(format!("field {name}"), vec![])
+            }
             other => Val::opaque(format!("field {name}"), vec![other]),
         }
     }
@@ -1174,7 +1309,10 @@ impl<'a> Ev<'a> {
 
     fn eval_for(&self, st: St, f: &syn::ExprForLoop) -> Outs {
         let outs = self.eval_expr(st, &f.expr);
-        then(outs, |s, it| match &it {
+        then(outs, |s, it| {
+            let it = match it { Val::List(vs) if !vs.iter().any(|x| matches!(x, Val::Rep { .. })) => Val::Array(vs), other => other };
+            let it = self.deref(&s, &it);
+            match &it {
             Val::Array(vs) => {
                 let mut cur: Outs = vec![(s, Flow::Val(Val::Unit))];
                 for v in vs {
@@ -1200,16 +1338,19 @@ impl<'a> Ev<'a> {
                 }
                 cur.into_iter().map(|(s, fl)| (s, if matches!(fl, Flow::Brk) { Flow::Val(Val::Unit) } else { fl })).collect()
             }
-            Val::Sym { ty, path } => {
+            Val::Sym { .. } | Val::Opaque { .. } if self.sym_iter(&it).is_some() => {
                 // summarised loop: one symbolic iteration
+                let (path, elem) = self.sym_iter(&it).unwrap();
                 let mut s2 = s;
                 s2.events.push(Event::Note(format!("loop-begin {path}")));
                 let mut lens: Vec<(usize, String, usize)> = Vec::new();
                 for (si, sc) in s2.env.iter().enumerate() {
                     for (n, v) in sc { if let Val::List(l) = v { lens.push((si, n.clone(), l.len())); } }
                 }
+                // snapshot of everything a body could carry over to the next iteration
+                let snap_env: Vec<Vec<(String, String)>> = s2.env.iter().map(|sc| sc.iter().filter(|(_, v)| !matches!(v, Val::List(_))).map(|(n, v)| (n.clone(), v.short())).collect()).collect();
+                let snap_cells: Vec<String> = s2.cells.iter().map(|c| c.short()).collect();
                 s2.env.push(HashMap::new());
-                let elem = Val::Sym { ty: ty.arg0(), path: format!("{path}[*]") };
                 self.bind_pat_irrefutable(&mut s2, &f.pat, elem);
                 let mut r = Vec::new();
                 for (mut s3, fl2) in self.eval_block(s2, &f.body) {
@@ -1221,6 +1362,21 @@ impl<'a> Ev<'a> {
                                 nl.push(Val::Rep { coll: path.clone(), items: l[*len0..].to_vec() });
                                 s3.env[*si].insert(n.clone(), Val::List(nl));
                             }
+                        }
+                    }
+                    // loop-carried state makes the one-iteration summary unsound: fail closed
+                    for (si, sc) in snap_env.iter().enumerate() {
+                        for (n, before) in sc {
+                            if let Some(after) = s3.env.get(si).and_then(|m| m.get(n)) {
+                                if !matches!(after, Val::List(_)) && after.short() != *before {
+                                    self.unsup(&format!("loop-carried write to `{n}` in a loop over symbolic collection {path}"), f.expr.span());
+                                }
+                            }
+                        }
+                    }
+                    for (i, before) in snap_cells.iter().enumerate() {
+                        if s3.cells[i].short() != *before {
+                            self.unsup(&format!("loop-carried write to a `&mut` flag in a loop over symbolic collection {path}"), f.expr.span());
                         }
                     }
                     s3.events.push(Event::Note(format!("loop-end {path}")));
@@ -1235,7 +1391,7 @@ impl<'a> Ev<'a> {
                 self.unsup(&format!("for over {}", it.short()), f.expr.span());
                 vec![]
             }
-        })
+        }})
     }
 
     // ------------------------------------------------------------ calls
@@ -1271,7 +1427,7 @@ impl<'a> Ev<'a> {
                     match v {
                         Val::Closure(cv) => { r.extend(self.call_closure(s, &cv, vs)); continue; }
                         Val::LocalFn(f) => {
-                            let fd = Rc::new(FnDef { qual: f.sig.ident.to_string(), self_ty: s.self_ty.clone(), sig: f.sig.clone(), block: (*f.block).clone(), file: self.cur_file.borrow().clone(), line: f.sig.ident.span().start().line });
+                            let fd = Rc::new(FnDef { qual: f.sig.ident.to_string(), self_ty: s.self_ty.clone(), sig: f.sig.clone(), block: (*f.block).clone(), file: self.cur_file.borrow().clone(), line: f.sig.ident.span().start().line, attrs: vec![], is_trait_impl: None });
                             r.extend(self.call_fn(s, &fd, None, vs));
                             continue;
                         }
@@ -1327,10 +1483,24 @@ impl<'a> Ev<'a> {
         r
     }
 
+    /// a symbolic collection (or `enumerate` of one): (collection path, element value)
+    fn sym_iter(&self, it: &Val) -> Option<(String, Val)> {
+        match it {
+            Val::Sym { ty, path } => Some((path.clone(), Val::Sym { ty: ty.arg0(), path: format!("{path}[*]") })),
+            Val::Opaque { what, deps } if what == "enumerate" => {
+                if let Some(Val::Sym { ty, path }) = deps.first() {
+                    let idx = Val::Sym { ty: Ty::Named("usize".into(), vec![]), path: format!("{path}[*]#index") };
+                    Some((path.clone(), Val::Tuple(vec![idx, Val::Sym { ty: ty.arg0(), path: format!("{path}[*]") }])))
+                } else { None }
+            }
+            _ => None,
+        }
+    }
     fn recv_ty_name(&self, st: &St, v: &Val) -> Option<String> {
         match self.deref(st, v) {
             Val::Sym { ty, .. } => ty.name().map(|s| s.to_string()),
             Val::Enum { ty, .. } => Some(ty),
+            Val::Struct { name, .. } => Some(name.split("::").next().unwrap_or("").to_string()),
             _ => None,
         }
     }
@@ -1393,7 +1563,43 @@ impl<'a> Ev<'a> {
             ("is_none", Val::Enum { var, .. }) => Val::Bool(var == "None"),
             ("as_ref" | "as_mut" | "clone" | "iter" | "into_iter" | "iter_mut" | "to_owned" | "as_str" | "borrow" | "cloned" | "copied", _) => rv.clone(),
             ("enumerate", Val::Array(vs)) => Val::Array(vs.iter().enumerate().map(|(i, v)| Val::Tuple(vec![Val::Int(i as i128), v.clone()])).collect()),
+            ("enumerate", Val::Sym { .. }) => Val::opaque("enumerate", vec![rv.clone()]),
             ("len", Val::Array(vs)) => Val::Int(vs.len() as i128),
+            ("len", Val::List(vs)) if !vs.iter().any(|x| matches!(x, Val::Rep { .. })) => Val::Int(vs.len() as i128),
+            ("is_empty", Val::Array(vs)) => Val::Bool(vs.is_empty()),
+            ("collect", Val::Array(vs)) => Val::List(vs.clone()),
+            ("collect", Val::Rep { .. }) => Val::List(vec![rv.clone()]),
+            ("collect" | "into_iter" | "iter", Val::List(_)) => rv.clone(),
+            ("map" | "filter_map", Val::Array(vs)) | ("map" | "filter_map", Val::List(vs)) if matches!(args.first(), Some(Val::Closure(_))) && !vs.iter().any(|x| matches!(x, Val::Rep { .. })) => {
+                // concrete element-wise evaluation, forking as the closure forks
+                let Some(Val::Closure(cv)) = args.first() else { unreachable!() };
+                let mut cur: Vec<(St, Vec<Val>)> = vec![(st, vec![])];
+                for el in vs {
+                    let mut next = Vec::new();
+                    for (s, acc) in cur {
+                        for (s2, fl) in self.call_closure(s, cv, vec![el.clone()]) {
+                            let Flow::Val(v) = fl else { continue };
+                            let mut a2 = acc.clone();
+                            if name == "map" { a2.push(v); } else {
+                                match v {
+                                    Val::Enum { ref var, ref args, .. } if var == "Some" => a2.push(args.first().cloned().unwrap_or(Val::Unit)),
+                                    Val::Enum { ref var, .. } if var == "None" => {}
+                                    other => { self.unsup(&format!("filter_map closure returned {}", other.short()), sp); }
+                                }
+                            }
+                            next.push((s2, a2));
+                        }
+                    }
+                    cur = next;
+                }
+                return cur.into_iter().map(|(s, acc)| (s, Flow::Val(Val::Array(acc)))).collect();
+            }
+            ("map", Val::Sym { .. }) | ("map", Val::Opaque { .. }) if matches!(args.first(), Some(Val::Closure(_))) && self.sym_iter(&rv).is_some() => {
+                let Some(Val::Closure(cv)) = args.first() else { unreachable!() };
+                let (path, elem) = self.sym_iter(&rv).unwrap();
+                let outs = self.call_closure(st, cv, vec![elem]);
+                return then(outs, |s, v| vec![(s, Flow::Val(Val::Rep { coll: path.clone(), items: vec![v] }))]);
+            }
             ("is_empty", Val::List(l)) => {
                 if l.is_empty() { Val::Bool(true) } else if l.iter().all(|x| matches!(x, Val::Rep { .. })) {
                     let names: Vec<String> = l.iter().map(|x| if let Val::Rep { coll, .. } = x { coll.clone() } else { String::new() }).collect();
@@ -1492,23 +1698,42 @@ impl<'a> Ev<'a> {
                 }
             }
             "matches" => {
-                struct M { e: syn::Expr, p: syn::Pat }
+                struct M { e: syn::Expr, p: syn::Pat, g: Option<syn::Expr> }
                 impl syn::parse::Parse for M {
                     fn parse(input: syn::parse::ParseStream) -> syn::Result<Self> {
                         let e = input.parse()?;
                         let _: syn::Token![,] = input.parse()?;
                         let p = syn::Pat::parse_multi_with_leading_vert(input)?;
+                        let mut g = None;
                         if input.peek(syn::Token![if]) {
-                            return Err(input.error("guard"));
+                            let _: syn::Token![if] = input.parse()?;
+                            g = Some(input.parse::<syn::Expr>()?);
                         }
                         let _ = input.parse::<Option<syn::Token![,]>>();
-                        Ok(M { e, p })
+                        Ok(M { e, p, g })
                     }
                 }
                 match syn::parse2::<M>(mac.tokens.clone()) {
                     Ok(m) => {
                         let outs = self.eval_expr(st, &m.e);
-                        then(outs, |s, v| self.match_pat(s, &m.p, &v).into_iter().map(|(s2, mm)| (s2, Flow::Val(Val::Bool(mm.is_some())))).collect())
+                        then(outs, |s, v| {
+                            let mut r = Vec::new();
+                            for (mut s2, mm) in self.match_pat(s, &m.p, &v) {
+                                match (mm, &m.g) {
+                                    (None, _) => r.push((s2, Flow::Val(Val::Bool(false)))),
+                                    (Some(_), None) => r.push((s2, Flow::Val(Val::Bool(true)))),
+                                    (Some(binds), Some(g)) => {
+                                        s2.env.push(HashMap::new());
+                                        for (n, b) in binds { s2.bind(&n, b); }
+                                        for (mut s3, fl) in self.eval_expr(s2, g) {
+                                            s3.env.pop();
+                                            r.push((s3, fl));
+                                        }
+                                    }
+                                }
+                            }
+                            r
+                        })
                     }
                     Err(_) => { self.unsup("matches! parse", sp); vec![] }
                 }
@@ -1522,6 +1747,26 @@ impl<'a> Ev<'a> {
             _ => { self.unsup(&format!("macro {name}!"), sp); vec![] }
         }
     }
+}
+
+/// Field types of the few external (syn / structmeta) structs the generator reads. Trusted language constants.
+pub fn ext_field_ty(st: &str, field: &str) -> Option<Ty> {
+    let n = |s: &str| Ty::Named(s.into(), vec![]);
+    let opt = |t: Ty| Ty::Named("Option".into(), vec![t]);
+    let vec = |t: Ty| Ty::Named("Vec".into(), vec![t]);
+    Some(match (st, field) {
+        ("Field", "ident") => opt(n("Ident")),
+        ("Field", "ty") => n("Type"),
+        ("Field", "attrs") | ("Variant", "attrs") | ("ItemStruct", "attrs") | ("ItemEnum", "attrs") | ("DeriveInput", "attrs") => vec(n("Attribute")),
+        ("Variant", "ident") | ("ItemStruct", "ident") | ("ItemEnum", "ident") | ("DeriveInput", "ident") => n("Ident"),
+        ("Variant", "fields") | ("ItemStruct", "fields") => n("Fields"),
+        ("ItemStruct", "generics") | ("ItemEnum", "generics") | ("ItemImpl", "generics") | ("DeriveInput", "generics") => n("Generics"),
+        ("ItemEnum", "variants") => vec(n("Variant")),
+        ("ItemImpl", "self_ty") => n("Type"),
+        ("ItemImpl", "items") => vec(n("ImplItem")),
+        ("Flag", "span") => opt(n("Span")),
+        _ => return None,
+    })
 }
 
 pub fn collect_holes(ts: TokenStream, out: &mut Vec<String>) {
